@@ -1308,6 +1308,140 @@ def check_package(ctx, g) -> None:
                 ctx.disagreement("package: a rendered file the model does not know calls a math function", {"backend": r["backend"], "src": r["src"]}, None, of["name"])
 
 
+# --------------------------------------------------------------------------------------------
+# placements: the function is accepted wherever an expression may stand
+# --------------------------------------------------------------------------------------------
+
+PLACE_TOKEN = "@F@"
+PLACEMENTS: Dict[str, str] = {
+    "method-argument": "Select(SelectMany(DS, lambda e: COLL), lambda j: j.mD(@F@))",
+    "method-argument-in-arithmetic": "Select(SelectMany(DS, lambda e: COLL), lambda j: 1 + j.mD(@F@, j.pt()) * 2)",
+    "cpp-function-argument": "Select(SelectMany(DS, lambda e: COLL), lambda j: c12_twice(@F@))",
+    "tuple-element": "Select(SelectMany(DS, lambda e: COLL), lambda j: (j.pt(), @F@))",
+    "dict-element": "Select(SelectMany(DS, lambda e: COLL), lambda j: {'a': j.pt(), 'b': @F@})",
+    "index-expression": "Select(SelectMany(DS, lambda e: COLL), lambda j: j.vD()[@F@])",
+    "conditional-test": "Select(SelectMany(DS, lambda e: COLL), lambda j: 1.5 if @F@ > 0.5 else 2.5)",
+    "conditional-arms": "Select(SelectMany(DS, lambda e: COLL), lambda j: @F@ if j.pt() > 1.0 else -@F@)",
+    "other-function-argument": "Select(SelectMany(DS, lambda e: COLL), lambda j: sqrt(@F@))",
+    "where-predicate": "Select(DS, lambda e: COLL.Where(lambda j: @F@ < 2.4).Count())",
+    "where-predicate-then-method": "Select(DS, lambda e: COLL.Where(lambda j: @F@ < 2.4).First().pt())",
+    "inner-select": "Select(DS, lambda e: COLL.Select(lambda j: @F@))",
+    "boolean-operand": "Select(SelectMany(DS, lambda e: COLL), lambda j: @F@ > 1.0 and j.pt() > 2)",
+    "method-argument-of-first": "Select(DS, lambda e: COLL.First().mD(@F@))".replace("@F@", "@G@"),
+}
+
+
+def placement_query(backend: str, placement: str, e) -> str:
+    b = BACKENDS[backend]
+    mds = [{"metadata_type": "add_method_type_info", "type_string": b["elem"], "method_name": m, "return_type": t} for m, t in TYPED_METHODS.items()]
+    mds += [{"metadata_type": "add_method_type_info", "type_string": b["elem"], "method_name": "mD", "return_type": "double"},
+            {"metadata_type": "add_method_type_info", "type_string": b["elem"], "method_name": "vD", "return_type_element": "double"},
+            {"metadata_type": "add_cpp_function", "name": "c12_twice", "include_files": [], "arguments": ["c12_x"],
+             "code": ["double result = 2.0 * (c12_x);"], "return_type": "double"}]
+    ds = "EventDataset()"
+    for m in mds:
+        ds = f"MetaData({ds}, {m!r})"
+    src = to_src(e)
+    # "@G@": the function applied to a constant (no loop variable in scope at that position)
+    return PLACEMENTS[placement].replace("DS", ds).replace("COLL", b["coll"]).replace(PLACE_TOKEN, src).replace("@G@", src)
+
+
+def _place_job(job) -> Dict[str, Any]:
+    import logging
+
+    backend, placement, e = job
+    logging.disable(logging.CRITICAL)
+    b = BACKENDS[backend]
+    d = Path(tempfile.mkdtemp(prefix="c12_"))
+    try:
+        a = ast.parse(placement_query(backend, placement, e), mode="eval").body
+        exe = _executor(backend)
+        info = exe.write_cpp_files(exe.apply_ast_transformations(a), d)
+        main = (d / b["main"]).read_text()
+    except Exception as ex:
+        return {"err": type(ex).__name__, "msg": str(ex)[:200]}
+    finally:
+        shutil.rmtree(d, ignore_errors=True)
+        logging.disable(logging.NOTSET)
+    code = [nospace(re.sub(r"\bi_obj\d+", "i_obj", l)) for l in main.splitlines() if "std::" in l and not l.lstrip().startswith(("#", "//"))]
+    return {"code": "\n".join(code), "incs": added_includes(backend, INCLUDE_RE.findall(main))}
+
+
+def placement_cases(ctx, g) -> List[Tuple[str, str, Any]]:
+    names = [n for n in g["readme"] if n in REF and n != "remquo"]
+    few = ["abs", "cosh", "round", "ilogb", "pow", "fma", "ldexp", "nan"]
+    out = []
+    for n in names:
+        for pl in PLACEMENTS:
+            for b in BACKENDS:
+                if ctx.tier == "quick" and b != "atlas" and n not in few:
+                    continue
+                e = call_of(n)
+                if pl == "method-argument-of-first":  # no loop variable there: constant arguments
+                    e = ("call", n, [a if a[0] != "m" else ("f", 0.5) for a in e[2]])
+                out.append((b, pl, e))
+    return out
+
+
+def judge_placements(ctx, cases: List[Tuple[str, str, Any]]) -> List[Dict[str, Any]]:
+    for b in BACKENDS:
+        added_includes(b, [])
+    if len(cases) >= 64:
+        import multiprocessing as mp
+        from concurrent.futures import ProcessPoolExecutor
+
+        try:
+            with ProcessPoolExecutor(max_workers=min(12, os.cpu_count() or 2), mp_context=mp.get_context("fork")) as ex:
+                obs = list(ex.map(_place_job, cases, chunksize=16))
+        except Exception:
+            obs = [_place_job(j) for j in cases]
+    else:
+        obs = [_place_job(j) for j in cases]
+    reqs = []
+    for (b, pl, e), o in zip(cases, obs):
+        sep = BACKENDS[b]["sep"]
+        reqs.append({"op": "tr", "expr": to_json(e, sep)})
+        reqs.append({"op": "placement", "expr": to_json(e, sep), "leaves": leaves_of(e, sep), "obs": None if "err" in o else {"code": o["code"], "incs": o["incs"]}})
+    ans = ctx.driver(DRIVER, reqs)
+    return [{"backend": b, "placement": pl, "expr": e, "src": to_src(e), "obs": o, "model": ans[2 * i], "spec": ans[2 * i + 1]} for i, ((b, pl, e), o) in enumerate(zip(cases, obs))]
+
+
+def placement_why(r) -> Optional[str]:
+    if "bad" in r["spec"]:
+        return None
+    if not r["spec"].get("holds", False):
+        return r["spec"].get("why") + (f" ({r['obs']['err']}: {r['obs'].get('msg')})" if "err" in r["obs"] else "")
+    return None
+
+
+def check_placements(ctx, g) -> None:
+    pre = [(c["backend"], c["placement"], _tuplify(c["expr"])) for c in vlib.corpus_cases(ID) if c.get("placement") in PLACEMENTS]
+    recs = judge_placements(ctx, pre + placement_cases(ctx, g))
+    for r in recs:
+        ctx.count("placement:" + r["placement"])
+        smp = None
+        if r["placement"] == "method-argument" and ctx.dist.get("sampled:placement", 0) < 1 and "err" not in r["obs"]:
+            ctx.count("sampled:placement")
+            smp = {"backend": r["backend"], "placement": r["placement"], "query": PLACEMENTS[r["placement"]].replace(PLACE_TOKEN, r["src"]),
+                   "emitted_lines_with_std": r["obs"]["code"].split("\n")[:3], "placement_spec_on_implementation": r["spec"]}
+        ctx.case({"place": [r["backend"], r["placement"], r["src"]]}, True, smp)
+        why = placement_why(r)
+        if why:
+            ctx.violation(key=f"place:{r['backend']}:{r['placement']}:{r['src']}",
+                          what=f"{r['src']} as {r['placement']} on {r['backend']}: {why}",
+                          case={"backend": r["backend"], "placement": r["placement"], "expr": r["expr"], "src": r["src"],
+                                "query": PLACEMENTS[r["placement"]].replace(PLACE_TOKEN, r["src"]).replace("@G@", r["src"])},
+                          observed=r["obs"], how="python: ast.parse(<query with DS = the dataset wrapped in the MetaData of placement_query, COLL = the backend's collection>, mode='eval').body "
+                          "through <backend>_executor().apply_ast_transformations + write_cpp_files; or ./check C12 --replay <this file>")
+        # the tie: the text the model gives the call stands in the emitted code
+        if "ok" in r["model"] and "err" not in r["obs"] and nospace(r["model"]["ok"]["text"]) not in r["obs"]["code"]:
+            ctx.disagreement("placement: the model's text of the call occurs in the emitted code", {"backend": r["backend"], "placement": r["placement"], "src": r["src"]},
+                             nospace(r["model"]["ok"]["text"]), r["obs"]["code"][:300])
+        if ("ok" in r["model"]) != ("err" not in r["obs"]):
+            ctx.disagreement("placement: accepted by the model vs by the translator", {"backend": r["backend"], "placement": r["placement"], "src": r["src"]},
+                             canon_model(r["model"]), {"refused": r["obs"].get("err")} if "err" in r["obs"] else "accepted")
+
+
 def run(ctx):
     g = getattr(ctx, "gen", None) or read_all()
     if g["unrecognised"]:
@@ -1341,8 +1475,10 @@ def run(ctx):
     check_resolver(ctx, g)
     # 3b. the whole rendered package, with and without inject_code metadata
     check_package(ctx, g)
+    # 3c. every documented function at every kind of expression position
+    check_placements(ctx, g)
     # 4. corpus, then every documented function standalone and inside arithmetic, then random expressions
-    cases = [("corpus", c["backend"], _tuplify(c["expr"])) for c in vlib.corpus_cases(ID) if "inject" not in c]
+    cases = [("corpus", c["backend"], _tuplify(c["expr"])) for c in vlib.corpus_cases(ID) if "inject" not in c and "placement" not in c]
     for stream, b, e in main_cases(ctx, g):
         ex = in_defect_exclusion(e)
         if ex:
@@ -1443,6 +1579,15 @@ def search(ctx, broken):
 
 def replay(ctx, rep) -> int:
     case = rep.get("case") or {}
+    if "expr" in case and "placement" in case:
+        r = judge_placements(ctx, [(case["backend"], case["placement"], _tuplify(case["expr"]))])[0]
+        print("query:", PLACEMENTS[case["placement"]].replace(PLACE_TOKEN, r["src"]).replace("@G@", r["src"]), " backend:", r["backend"])
+        print("translator:", r["obs"])
+        print("model's text of the call:", canon_model(r["model"]))
+        print("placement spec on the translator's output:", r["spec"])
+        why = placement_why(r)
+        print("verdict:", why or "holds")
+        return 1 if why else 0
     if "expr" in case and "inject" in case:
         r = judge_package(ctx, [(case["backend"], case["inject"], _tuplify(case["expr"]))])[0]
         print("query expression:", r["src"], " backend:", r["backend"], " inject_code:", INJECT_VARIANTS[case["inject"]])
@@ -1505,7 +1650,11 @@ RULE = (
     "documented functions, + - * / **, unary + -, int/float constants, double/int/float method values, and expressions outside the documented fragment "
     "(unknown names, module-less bindings, strings in arithmetic, %, not, @, ~); (d) the whole rendered package on the three backends for queries using a math "
     "function or **, without and with five shapes of inject_code metadata whose header_includes / body_includes do or do not list cmath: every rendered C++ file that "
-    "calls a std:: math function must include cmath directly or through a rendered header it includes (every such case is non-trivial). Inputs inside the listed defect classes (remquo; abs-of-integers "
+    "calls a std:: math function must include cmath directly or through a rendered header it includes (every such case is non-trivial); (e) placements: every documented function (arguments as in (c)) written as the argument of a metadata-declared object "
+    "method (alone, inside arithmetic, on First()), of a user C++ function (add_cpp_function), as tuple / dict element, index expression, test and arms of a "
+    "conditional, argument of another documented function, predicate of Where (then Count / First().method), inner Select, operand of `and` — quick: all functions "
+    "on ATLAS and 8 on the CMS backends, thorough: all on all three; judged by PlacementSpec (accepted, some expression of the emitted code means the call, header "
+    "included) and tied to the model by containment of the model's text of the call. Inputs inside the listed defect classes (remquo; abs-of-integers "
     "under a division) are produced only by the findings stream; the repaired ones (round, ilogb/2, the rounding rows, sin(x)*2) are replayed on every run. A case is non-trivial when it is a documented expression containing at least one "
     "function call; distinct = distinct (backend, expression)."
 )
@@ -1540,6 +1689,8 @@ LEVEL_TEXT = (
 LEVEL_NOTE = (
     "Theorem: table facts (all rows), resolver/emission facts (all expressions), namesake semantics for expressions with int/double operands, + - * / **, unary + -, and "
     "every documented function except remquo and abs-of-integers (defect exclusions, each with a counterexample theorem and a listed finding). Sampled only: "
+    "the positions other than value / arithmetic operand / argument of another math function (method and user-function arguments, tuple, dict, index, conditional, Where, "
+    "inner Select: the model has no such constructs, the Lean Spec is evaluated on the implementation's output there), the package rendering beyond its include lists, "
     "float-typed operands, % and not (accepted, judged by the Spec on the implementation), and the numeric values (libm is trusted). The hand model's agreement with the "
     "python is checked by differential execution on three backends, not proved. Trusted: Lean kernel (axioms audited), translator, harness, my reading of <cmath>."
 )
